@@ -448,6 +448,35 @@ def call_with_y(f, v): return f(y=v)
 def plus_one(x): return call_with_y(lambda y: y.one, x)
 def d29(ds): return ds.Select(lambda y: plus_one(y))
 def p29(): return lambda y: plus_one(y)
+# helpers that are handed a function and call it, or call what another helper returns; the call site's variable carries the name of
+# one of their parameters
+def inc_h(x): return x.inc
+def apply_h(f, v): return f(v)
+def bump_h(x): return adder(x)(x)
+def twice_h(f, v): return f(f(v))
+def compose_h(f, g, v): return f(g(v))
+def d30(ds): return ds.Select(lambda v: apply_h(inc_h, v.ten))
+def p30(): return lambda v: apply_h(inc_h, v.ten)
+def d31(ds): return ds.Select(lambda v: apply_h(lambda q: q.add(v), v.five))
+def p31(): return lambda v: apply_h(lambda q: q.add(v), v.five)
+def d32(ds): return ds.Select(lambda x: bump_h(x.one))
+def p32(): return lambda x: bump_h(x.one)
+def d33(ds): return ds.Select(lambda f: apply_h(inc_h, f.w))
+def p33(): return lambda f: apply_h(inc_h, f.w)
+def d34(ds): return ds.Select(lambda v: twice_h(inc_h, v.a))
+def p34(): return lambda v: twice_h(inc_h, v.a)
+def d35(ds): return ds.Select(lambda g: compose_h(inc_h, lambda f: f.sq(g), g.v))
+def p35(): return lambda g: compose_h(inc_h, lambda f: f.sq(g), g.v)
+# functions that share ONE code object and differ in their defaults only: siblings made by a comprehension, closures of one factory
+cut10, cut20 = [lambda pt, c=c: pt.gt(c) for c in (10, 20)]
+def d36(ds): return ds.Select(lambda e: (cut10(e.a), cut20(e.b), cut10(e.c)))
+def p36(): return lambda e: (cut10(e.a), cut20(e.b), cut10(e.c))
+def make_inside(lo, hi):
+    def inside(x, lo=lo, *, hi=hi): return x.between(lo, hi)
+    return inside
+in_a, in_b = make_inside(1, 2), make_inside(3, 4)
+def d37(ds): return ds.Select(lambda e: (in_a(e.v), in_b(e.w), in_a(e.u)))
+def p37(): return lambda e: (in_a(e.v), in_b(e.w), in_a(e.u))
 # a captured lambda assigned the ordinary way
 add_one = lambda x: x.plus1
 def d25(ds): return ds.Select(lambda e: add_one(e.v))
@@ -471,13 +500,16 @@ def p6(): return lambda e: e.jets.Select(lambda j: two(j, e))
 
 def directed(ctx):
     m = modgen.load(DIRECTED, "c05d")
-    env = {n: getattr(m, n) for n in ("ident", "const", "sh", "addy", "two", "outer", "add3", "deep", "inner_kw", "outer_kw", "add_to_all", "table", "five_plus", "shifted", "corrected", "next_one", "after_deco", "nothing", "plus_1", "plus_1_then_10", "scale2", "inner_s", "outer_s", "helper_k", "h_b", "h_c", "add_one", "calibrated", "to_gev", "offset", "adder", "call_with_y", "plus_one")}
+    env = {n: getattr(m, n) for n in ("ident", "const", "sh", "addy", "two", "outer", "add3", "deep", "inner_kw", "outer_kw", "add_to_all", "table", "five_plus", "shifted", "corrected", "next_one", "after_deco", "nothing", "plus_1", "plus_1_then_10", "scale2", "inner_s", "outer_s", "helper_k", "h_b", "h_c", "add_one", "calibrated", "to_gev", "offset", "adder", "call_with_y", "plus_one", "inc_h", "apply_h", "bump_h", "twice_h", "compose_h", "cut10", "cut20", "in_a", "in_b")}
     tags = ["bare-parameter", "constant-body", "nested-lambda-shadows-parameter", "argument-captured-by-inner-binder", "reordered-keywords", "helper-calls-helper", "call-in-nested-lambda", "curried-two-deep-lambdas-argument-names-innermost", "two-deep-nested-lambdas-argument-names-innermost",
             "keyword-only-parameter-hides-argument", "default-of-a-lambda-that-stays", "new-name-already-bound-in-scope", "keyword-of-a-call-that-stays", "default-bound-at-definition",
             "bound-method", "functools-wraps-wrapper", "lambda-on-the-decorator-line", "bare-return", "closures-of-one-factory-calling-each-other",
             "free-name-of-inner-helper-vs-outer-helper-parameter", "free-name-of-helper-vs-lambda-parameter", "free-name-of-helper-vs-nested-lambda-parameter",
             "tuple-default-shadowing-a-global", "tuple-default-global-rebound-later", "tuple-default-from-enclosing-function", "assigned-lambda", "function-default-name-rebound-later",
-            "helper-captures-something-unsendable", "returned-lambda-called-by-keyword", "handed-on-lambda-called-by-keyword"]
+            "helper-captures-something-unsendable", "returned-lambda-called-by-keyword", "handed-on-lambda-called-by-keyword",
+            "handed-a-helper-argument-names-its-parameter", "handed-a-lambda-that-mentions-the-call-site-variable", "calls-what-a-helper-returns-with-its-own-parameter",
+            "call-site-variable-named-like-the-function-parameter", "function-parameter-called-twice", "two-function-parameters-composed",
+            "sibling-lambdas-of-one-comprehension-differing-in-defaults", "closures-of-one-factory-differing-in-defaults"]
     for i, tag in enumerate(tags):
         ctx.case("directed:" + tag, True)
         expected = probe.behaviour(getattr(m, f"p{i}")())
